@@ -214,6 +214,10 @@ impl<'a> Tr<'a> {
                 // conservative tree: not used for exhaustiveness (treated as useless row is unsound) -> mark with a private ctor
                 Ok(PatOut { lean: leans.join(" | "), conds: vec![], binds: vec![], view: None, tree: PTree::Ctor { name: "<or>".into(), family: vec![], args: vec![] } })
             }
+            Pat::Tuple(t) if t.elems.is_empty() => {
+                self.unify(ty, &Ty::Unit, p.span())?;
+                Ok(PatOut { lean: "()".into(), conds: vec![], binds: vec![], view: None, tree: PTree::Wild })
+            }
             Pat::Tuple(t) => {
                 let etys: Vec<Ty> = match &ty_s {
                     Ty::Tuple(ts) if ts.len() == t.elems.len() => ts.clone(),
@@ -670,8 +674,11 @@ impl<'a> Tr<'a> {
             },
             ArmBody::BlockThenState(b) => self.block_lines(&b.stmts, &outs, cx.want_value, exp.as_ref()),
             ArmBody::BreakLoop => {
-                let st = match self.frames.last() {
-                    Some(f) => state_tuple(&f.state),
+                let st = match self.frames.last_mut() {
+                    Some(f) => {
+                        f.breaks += 1;
+                        state_tuple(&f.state)
+                    }
                     None => return self.err(sp, "internal: break outside loop"),
                 };
                 Ok((vec![format!("Ctl.exit (.brk {})", st)], Ty::Never, true))
